@@ -171,8 +171,8 @@ def prob_history(mk, sname, history, convention="plain", two_systems=False, effi
     return items
 
 
-def histories(k, with_pickle):
-    ops = [o for o in MUTATORS if with_pickle or o != "pickle"]
+def histories(k, with_pickle, ops=None):
+    ops = [o for o in (ops or MUTATORS) if with_pickle or o != "pickle"]
     out = []
     for n in range(1, k + 1):
         out += [list(h) for h in itertools.product(ops, repeat=n)]
